@@ -342,6 +342,8 @@ def run(chk: Check) -> None:
     else:
         r5.violation("interface_hash = digest(data_bytes ...) and the same data_bytes are written", wc.loc(), f"interface_hash = {ih}")
 
+    run_dep_hash(chk, ix)
+
     # ---------------- R02.6
     r6 = chk.rule("R02.6", "TypeIndirectionVisitor reaches every type component (matrix row) and indirect dependencies are patched after type checking", floor=25)
     cells = coverage(ix, ix.cls("mypy.indirection.TypeIndirectionVisitor"))
@@ -360,3 +362,64 @@ def run(chk: Check) -> None:
             r6.ok("finish_passes calls patch_indirect_dependencies", fp.loc(patch[0].stmt), f"guards: {texts}")
     else:
         r6.violation("finish_passes calls patch_indirect_dependencies", fp.loc(), "indirect dependencies are no longer recorded")
+
+
+def run_dep_hash(chk: Check, ix) -> None:
+    """R02.8: the single-module fast path and the general path of transitive_dep_hash agree."""
+    r8 = chk.rule("R02.8", "transitive_dep_hash: the single-module fast path and the general (import-cycle) path select dependencies with the same predicate and both write every selected dependency's name (the general path is the fast path generalised, not a different hash)", floor=3)
+    f = ix.func("mypy.build.transitive_dep_hash")
+    fast = [n for n in f.node.body if isinstance(n, ast.If) and "len(mod_ids) == 1" in norm(n.test)]
+    if len(fast) != 1:
+        raise AnalysisError("transitive_dep_hash: fast path `if len(mod_ids) == 1` not found")
+    fast_body = fast[0].body
+    gen_body = [s for s in f.node.body if s is not fast[0]]
+
+    def filters(stmts):
+        """Predicates a dependency must satisfy to be selected (comprehension ifs and guarding ifs of .add / append)."""
+        out = set()
+        deps_var = None
+        for s in stmts:
+            for n in ast.walk(s):
+                if isinstance(n, (ast.GeneratorExp, ast.ListComp, ast.SetComp)) and any("dependencies" in norm(g.iter) for g in n.generators):
+                    for g in n.generators:
+                        for c in g.ifs:
+                            out |= {normalise_pred(x, g.target) for x in (c.values if isinstance(c, ast.BoolOp) and isinstance(c.op, ast.And) else [c])}
+                if isinstance(n, ast.For) and "dependencies" in norm(n.iter):
+                    for c in ast.walk(n):
+                        if isinstance(c, ast.Call) and isinstance(c.func, ast.Attribute) and c.func.attr in ("add", "append"):
+                            par = f.module.parents()
+                            p = par.get(c)
+                            while p is not None and p is not n:
+                                if isinstance(p, ast.If):
+                                    t = p.test
+                                    out |= {normalise_pred(x, n.target) for x in (t.values if isinstance(t, ast.BoolOp) and isinstance(t.op, ast.And) else [t])}
+                                p = par.get(p)
+        return out
+
+    def normalise_pred(e, target):
+        t = norm(e)
+        tn = norm(target)
+        import re as _re
+        return _re.sub(rf"\\b{tn}\\b", "DEP", t)
+
+    ff, gf = filters(fast_body), filters(gen_body)
+    if not ff or not gf:
+        raise AnalysisError(f"transitive_dep_hash: dependency filters not recognised (fast {ff}, general {gf})")
+    if ff == gf:
+        r8.ok("same dependency predicate on both paths", f.loc(), f"{sorted(ff)}")
+    else:
+        r8.violation("same dependency predicate on both paths", f.loc(), f"fast path selects dependencies with {sorted(ff)}, the import-cycle path with {sorted(gf)}: the hash of a multi-module SCC is no longer the generalisation of the single-module hash (e.g. members of the cycle are left out, so swapping a member goes unnoticed)")
+
+    def name_written_unconditionally(stmts):
+        for s in stmts:
+            for n in ast.walk(s):
+                if isinstance(n, ast.For) and "all_direct_deps" in norm(n.iter):
+                    top = [x for x in n.body if isinstance(x, ast.Expr) and isinstance(x.value, ast.Call) and norm(x.value.func) == "write_str_bare" and norm(x.value.args[1]) == norm(n.target)]
+                    return bool(top)
+        return False
+
+    for nm, body in (("fast", fast_body), ("general", gen_body)):
+        if name_written_unconditionally(body):
+            r8.ok(f"{nm} path writes the name of every selected dependency", f.loc())
+        else:
+            r8.violation(f"{nm} path writes the name of every selected dependency", f.loc(), "a selected dependency's name is not (unconditionally) part of the hashed bytes")
